@@ -746,7 +746,8 @@ PROPS = {
              "forwarder to a loopback origin, transports of 4 MiB and 2 KiB (the codecs block in their writes), 0 / 1 / 70000 / 300000 "
              "(1000000) patterned bytes in either or both directions, client or origin taking 700-900 bytes per read, the origin or "
              "the client ending its stream first: each side must have received exactly what the other sent, then the end of stream, "
-             "and never a reset."
+             "and never a reset; plus 4 failing tunnels (the client resets its stream or drops its connection, the origin aborts with a TCP "
+             "reset): the other side's connection must end within 3 s."
              " Live HTTP/3 part (suite c02h3, wall clock): the same tunnels (13 quick, 44 thorough) through the real Core::listen on a "
              "loopback UDP port - QUIC multiplexer, HTTP/3 codec, Tunnel, direct forwarder - driven by a quiche client of the harness with "
              "flow-control windows of 1 MiB and 8 KiB, including clients that end their stream while the origin still sends; and 4 failing "
